@@ -15,7 +15,8 @@ the sites in `$VERIF_REPO/ariadne_codegen` with the `ast` module:
   eq          <set expr> == ... / != ...
   size        len(<set>), bool(<set>), `if <set>`, `not <set>`, `<set> and/or ...` in a test
   arg         <set expr> passed to a call (flows into the callee)
-  listing     glob / rglob / iterdir / listdir / walk / scandir call
+  listing     glob / rglob / iterdir / listdir / walk / scandir call (the call itself, and every function that
+              yields/returns from one, is then treated like a set expression: its consumers are sites)
   ambient     hash(), id(), random.*, uuid.*, time.*, datetime.now/utcnow/today, os.getpid, os.urandom
 
 A *set expression* is recognised by a conservative type inference by NAME: names/attributes annotated with
@@ -87,6 +88,7 @@ class Globals:
         self.fn_returns_set: set[str] = set()
         self.fn_returns_tuple_set: dict[str, list[int]] = {}
         self.fn_returns_setcontainer: set[str] = set()
+        self.fn_returns_listing: set[str] = set()   # functions/generators that hand on a directory listing
 
 
 def gather_globals(trees: dict[str, ast.Module]) -> Globals:
@@ -100,6 +102,13 @@ def gather_globals(trees: dict[str, ast.Module]) -> Globals:
                     g.fn_returns_tuple_set[n.name] = _tuple_set_indices(n.returns)
                 elif _ann_has_set(n.returns):
                     g.fn_returns_setcontainer.add(n.name)
+            if isinstance(n, (ast.FunctionDef, ast.AsyncFunctionDef)):
+                for c in ast.walk(n):
+                    if isinstance(c, ast.Call):
+                        f = c.func
+                        cn = f.id if isinstance(f, ast.Name) else (f.attr if isinstance(f, ast.Attribute) else None)
+                        if cn in LISTING and any(isinstance(y, (ast.Yield, ast.YieldFrom, ast.Return)) for y in ast.walk(n)):
+                            g.fn_returns_listing.add(n.name)
     return g
 
 
@@ -132,7 +141,7 @@ class FileScan:
                 return True
             if isinstance(e.func, ast.Attribute) and cn in SET_METHODS_RETURNING_SET and self.is_set(e.func.value):
                 return True
-            if cn in self.g.fn_returns_set:
+            if cn in self.g.fn_returns_set or cn in self.g.fn_returns_listing or cn in LISTING:
                 return True
             if isinstance(e.func, ast.Attribute) and cn == "get" and self.is_container(e.func.value):
                 return True
